@@ -309,7 +309,9 @@ def run_C08(chk):
 
 DATE_FORMS = [['%Y', '-', '%m', '-', '%d'], ['%d', '/', '%m', '/', '%Y'], ['%Y', ' ', '%b', ' ', '%d'], ['%a', ' ', '%Y', '-', '%m', '-', '%d'],
               ['%Y', ' ', '%U', ' ', '%w'], ['%Y', ' ', '%W', ' ', '%u'], ['%Y', '-', '%m', '-', '%e'], ['%E4Y', '-', '%m', '-', '%d'], ['%Y', ' ', '%B', ' ', '%d', ' ', '%A'],
-              ['%m', '/', '%d', ' ', '%Y'], ['%Y', '.', '%U', '.', '%a']]
+              ['%m', '/', '%d', ' ', '%Y'], ['%Y', '.', '%U', '.', '%a'],
+              # a redundant week number ahead of the month / day-of-month fields: every later %m, %d or %e cancels it (seeded change C07O)
+              ['%Y', '-', '%m', ' (week ', '%U', ') ', '%e'], ['%Y', ' w', '%W', ' ', '%m', '-', '%d'], ['%Y', '-', '%m', ' wk', '%W', ' ', '%d'], ['%Y', ' ', '%U', ' ', '%e', '.', '%m']]
 TIME_FORMS = [['%H', ':', '%M', ':', '%E*S'], ['%H', ':', '%M', ':', '%S', '.', '%E*f'], ['%H', '%M', ' ', '%E15S'], ['%I', ':', '%M', ':', '%E*S', ' ', '%p'], ['%H', 'h', '%M', 'm', '%S', 's', '%E15f'],
               ['%H', ':', '%M', ':', '%E18S'], ['%H', '%M', ' ', '%E16S'], ['%H', ':', '%M', ':', '%S', ',', '%E17f'], ['%H', ':', '%M', ':', '%E25S'],
               ['%p', ' ', '%I', ':', '%M', ':', '%E*S'], ['%p', '%I', '%M', ' ', '%E15S']]
